@@ -924,6 +924,7 @@ theorem step_cfg (s : St) (op : Op) : (step s op).1.cfg = s.cfg := by
     | exact resetUser_cfg _ _ _ _ _ _
     | (unfold getTS; repeat' split
        all_goals first | rfl | exact getTSLoop_cfg _ _ _ _)
+    | exact getTSLoop_cfg _ _ _ _
 
 theorem inv_step (s : St) (h : Inv s) (hc : CfgOk s.cfg) (op : Op) (hf : op.faithful) :
     Inv (step s op).1 := by
@@ -937,6 +938,11 @@ theorem inv_step (s : St) (h : Inv s) (hc : CfgOk s.cfg) (op : Op) (hf : op.fait
   | resign => exact inv_resign s h
   | dropKey => exact inv_dropKey s h
   | getTS m count => exact inv_getTS s h m count
+  | tryTS m count =>
+    simp only [step]
+    split
+    · exact h
+    · exact inv_getTSLoop s h m count (by omega) 1
   | update m now f =>
     simp only [step]
     split
